@@ -34,6 +34,7 @@ type solveCfg struct {
 	workers  int
 	lemmas   []*Lemma
 	known    map[string]bool // obligation keys listed as known findings: expected to fail, short time-out
+	siteVacuity bool         // thorough: also ask whether the hypotheses of each proved obligation are satisfiable
 }
 
 func runSolver(sp solverSpec, file string, timeoutS int) (verdict, output string, ms int64) {
@@ -88,6 +89,9 @@ func solveAll(obls []*Obligation, cfg solveCfg) {
 			defer wg.Done()
 			for o := range ch {
 				solveOne(o, cfg)
+				if cfg.siteVacuity && !o.ExpectSat && o.Status == "proved" && o.Solver != "simplifier" {
+					probeSite(o, cfg)
+				}
 			}
 		}()
 	}
@@ -292,4 +296,19 @@ func splitGoal(g *Term) []*Term {
 		return out
 	}
 	return []*Term{g}
+}
+
+// probeSite (thorough tier): are the hypotheses under which o was proved satisfiable at all? `unsat` means the
+// obligation was discharged vacuously at this site (dead code, or contradictory assumptions/contracts).
+func probeSite(o *Obligation, cfg solveCfg) {
+	f := strings.TrimSuffix(o.SMT, ".smt2") + ".site.smt2"
+	src := EmitSMT(o.Hyps, False, true)
+	if err := os.WriteFile(f, []byte("; site probe for "+o.Name+"\n"+src), 0o644); err != nil {
+		return
+	}
+	v, _, _ := runSolver(solvers[0], f, 5)
+	if v == "unsat" {
+		o.VacuousSite = true
+	}
+	os.Remove(f)
 }
